@@ -5,6 +5,7 @@ import (
 	"go/ast"
 	"go/token"
 	"go/types"
+	"golang.org/x/tools/go/packages"
 	"sort"
 	"strings"
 
@@ -496,6 +497,15 @@ func runC06(c *core.Ctx) {
 				}
 				n++
 				guard := false
+				// a helper that makes the comparison (one level) counts when it is called before the append
+				ast.Inspect(fd.Body, func(y ast.Node) bool {
+					if call, ok := y.(*ast.CallExpr); ok && call.Pos() < as.Pos() {
+						if f := core.Callee(info, call); f != nil && interpCeilingCheckers(pk)[f.Name()] {
+							guard = true
+						}
+					}
+					return true
+				})
 				ast.Inspect(fd.Body, func(y ast.Node) bool {
 					is, ok := y.(*ast.IfStmt)
 					if !ok || is.Pos() > as.Pos() {
@@ -763,6 +773,38 @@ func blocksOf(n ast.Node) []*ast.BlockStmt {
 			out = append(out, &ast.BlockStmt{List: y.Body})
 		}
 		return true
+	})
+	return out
+}
+
+// interpCeilingCheckers: functions of the package whose body compares with a ceiling and reports the stack-overflow error.
+func interpCeilingCheckers(pk *packages.Package) map[string]bool {
+	info := pk.TypesInfo
+	out := map[string]bool{}
+	core.AllFuncDecls(pk, func(fd *ast.FuncDecl) {
+		ast.Inspect(fd.Body, func(y ast.Node) bool {
+			is, ok := y.(*ast.IfStmt)
+			if !ok {
+				return true
+			}
+			ceil, over := false, false
+			ast.Inspect(is.Cond, func(z ast.Node) bool {
+				if id, ok := z.(*ast.Ident); ok && strings.Contains(strings.ToLower(id.Name), "ceiling") {
+					ceil = true
+				}
+				return true
+			})
+			ast.Inspect(is.Body, func(z ast.Node) bool {
+				if se, ok := z.(*ast.SelectorExpr); ok && se.Sel.Name == "ErrRuntimeStackOverflow" && info != nil {
+					over = true
+				}
+				return true
+			})
+			if ceil && over {
+				out[fd.Name.Name] = true
+			}
+			return true
+		})
 	})
 	return out
 }
